@@ -1,8 +1,9 @@
 (* Extraction of the executable free-list machine (C19).  ExtrOcamlBasic only.
    (BinInt.Z.of_nat is extracted only because lib/zutil.ml expects the BinNums module to exist.) *)
 From Coq Require Import List ZArith Extraction ExtrOcamlBasic.
-From C19 Require Treiber TreiberExact TreiberRows TreiberTables TreiberCreate Gen_DataRow Gen_FreeListOwner.
+From C19 Require Treiber TreiberExact TreiberRows TreiberTables TreiberCreate Gen_DataRow Gen_FreeListOwner Gen_RawPool Gen_MemPoolConst.
 Separate Extraction Treiber.step Treiber.run Treiber.init Treiber.walk Treiber.held Treiber.dpc_kind Treiber.opc_kind
   TreiberExact.stepx TreiberExact.xinit TreiberRows.stepl TreiberRows.linit TreiberTables.stept TreiberTables.tinit TreiberCreate.stepc TreiberCreate.cinit
   Gen_DataRow.destroy Gen_FreeListOwner.pvDeallocateFreeRaws Gen_FreeListOwner.pvAllocateRaw
+  Gen_RawPool.pvCreateRawMemPool Gen_MemPoolConst.CorrectBlockSize
   BinInt.Z.of_nat.
